@@ -100,7 +100,7 @@ func c08Run(env *core.Env, idx int) *core.CaseResult {
 		}
 		events = h.Events
 		for k, v := range h.Stats {
-			if k == "join_statements" || k == "insert_bursts_next_to_open_transactions" || k == "checkpoints" {
+			if k == "join_statements" || k == "insert_bursts_next_to_open_transactions" || k == "checkpoints" || k == "stmt_update_indexed_column_of_every_row" || k == "stmt_conflict_half_way_through_a_scan" {
 				res.Add("history_"+k, v)
 			}
 		}
